@@ -10,4 +10,13 @@ t = open("/verif/tools/agent_prompt.txt").read()
 t = t.replace("{WT}", wt).replace("{ID}", pid).replace("{TITLE}", p["title"]).replace("{STATEMENT}", p["statement"])
 t = t.replace("{QUANT}", p["quantifier"]["text"]).replace("{FILES}", ", ".join(p["anchors"]["files"]))
 t = t.replace("{K}", str(k)).replace("{M3}", ", m3" if k >= 3 else "")
+if suffix:
+    t += """
+Additional guidance for this round: other developers have already produced the obvious single-line regressions for this property (wrong index, swapped argument, dropped term, off-by-one in one function). Aim for something of a DIFFERENT kind, for example:
+ - two cooperating sites that each look fine alone (a helper changes its contract slightly and one caller relies on the old one);
+ - state carried between calls or steps (a cache, a memoised value, an object reused across time steps / trajectories / runs) that goes stale only for a particular sequence of operations;
+ - an interaction between two features that are each tested separately (e.g. qubit reordering x SLM mask x noise x initial state x dark atoms x evaluation-time placement x DMRG);
+ - boundary sizes and positions (1 or 2 atoms, first / last time step, first / last site, exactly-equal values);
+ - a change that only matters for a non-default configuration value.
+"""
 print(t)
